@@ -25,7 +25,7 @@ ASSUMPTIONS = [
 
 def floors(tier):
     return {"states_checked": 3000, "pairs_matched_bit_exact": 8000, "chains_skipping_an_iterate": 60, "restart_states_checked": 150, "chains_continued_with_a_memory_of_one_or_two_pairs": 100,
-            "inherited_pairs_checked": 300, "operators_spd_checked": 2500, "diag_operators": 800, "diag_operators_with_zero_columns": 200, "diag_operators_with_columns_of_order_1e-170_and_below": 150, "diag_operators_on_a_length_scale_of_1e-165_and_below": 100, "diag_requested_again_after_in_place_edit": 300, "rejected_pair_then_failed_search_then_progress": 20, "second_continuations_from_one_checkpoint_object": 40, "switch_states_checked": 300, "continuations_whose_update_function_rewrites_the_restored_gradients_in_place": 200, "switch_runs_traced_through_a_logger": 60, "diagonals_held_by_the_caller_re-read_after_later_extractions": 3000, "__nontrivial__": 150}
+            "inherited_pairs_checked": 300, "operators_spd_checked": 2500, "diag_operators": 800, "diag_operators_with_zero_columns": 200, "diag_operators_with_columns_of_order_1e-170_and_below": 150, "diag_operators_on_a_length_scale_of_1e-165_and_below": 100, "diag_requested_again_after_in_place_edit": 300, "rejected_pair_then_failed_search_then_progress": 20, "second_continuations_from_one_checkpoint_object": 40, "switch_states_checked": 300, "continuations_whose_update_function_rewrites_the_restored_gradients_in_place": 200, "switch_runs_traced_through_a_logger": 60, "diagonals_held_by_the_caller_re-read_after_later_extractions": 3000, "runs_with_the_factorisation_checking_switch": 2000, "check_switch_states_checked": 5000, "__nontrivial__": 150}
 
 
 def cases(tier, seed):
@@ -88,6 +88,8 @@ def cases(tier, seed):
         yield {"kind": "switch_on_restart", "switch": {"problem": ps, "maxcor": int(rng.integers(3, 8)), "switch_at": int(rng.integers(3, 8)),
                                                          "variant": gen.pick(rng, ["indefinite", "indefinite", "reg"]), "vseed": int(rng.integers(0, 2**31 - 1)),
                                                          "strength": float(rng.uniform(0.5, 4.0)), "eps_SY": float(gen.pick(rng, [2.2e-16, 2.2e-16, 1e-2]))}}
+    for i in range(48 if tier == "quick" else 1600):
+        yield {"kind": "check_switch", "seed": subseed("C18c", seed, i) % (2**31), "count": 150}
     nd = 60 if tier == "quick" else 1500
     for i in range(nd):
         yield {"kind": "diag", "seed": subseed("C18d", seed, i) % (2**31), "count": 40}
@@ -466,9 +468,79 @@ def switch_case(spec, out, keys):
     out.sample = dict(spec=spec, states=len(states))
 
 
+# ---------------------------------------------------------------------------
+def check_switch_case(spec, out, keys):
+    """Runs with the factorisation-checking switch on, on tight-box quadratics started at a vertex (stored steps that move disjoint sets
+    of variables are exactly orthogonal: the input the switch's own comparison stumbles upon). The switch may end a run with its
+    AssertionError (counted, not judged); whenever a state or a result is produced, each of its pairs must be, bit for bit, the
+    difference of two points at which the gradient was requested and of the gradients returned there (the same two for s and y)."""
+    import warnings
+
+    from lbfgsb import minimize_lbfgsb
+
+    rng = np.random.default_rng(int(spec["seed"]))
+    for _ in range(int(spec["count"])):
+        n = int(rng.integers(2, 4))
+        M = rng.standard_normal((n, n))
+        A = M @ M.T + 0.05 * np.eye(n)
+        b = rng.standard_normal(n)
+        w = float(rng.uniform(0.1, 1.0))
+        x0 = np.where(rng.random(n) < 0.5, -w, w)
+        maxcor = int(rng.integers(2, 6))
+        log, states = [], []
+
+        def jac(x):
+            g = A @ x - b
+            log.append((np.array(x, copy=True), np.array(g, copy=True)))
+            return g
+
+        def cb(xk, st):
+            states.append((np.array(st.hess_inv.sk, copy=True), np.array(st.hess_inv.yk, copy=True)))
+            return False
+
+        out.count("runs_with_the_factorisation_checking_switch")
+        old = np.seterr(all="ignore")
+        try:
+            with warnings.catch_warnings():
+                warnings.simplefilter("ignore")
+                res = minimize_lbfgsb(x0=x0.copy(), fun=lambda x: 0.5 * x @ A @ x - b @ x, jac=jac, bounds=np.array([[-w, w]] * n), maxcor=maxcor, maxiter=15,
+                                      ftol=0.0, gtol=1e-12, callback=cb, is_check_factorization=True)
+            states.append((np.array(res.hess_inv.sk, copy=True), np.array(res.hess_inv.yk, copy=True)))
+        except AssertionError:
+            out.count("runs_ended_by_the_factorisation_checking_switch")  # the states seen before it are still judged
+        except Exception as e:  # noqa
+            out.count("runs_raised")
+            continue
+        finally:
+            np.seterr(**old)
+        name = f"factorisation-checking switch on, tight-box quadratic n={n} w={w!r} maxcor={maxcor} (case seed {spec['seed']})"
+        for j, (sk, yk) in enumerate(states):
+            out.count("check_switch_states_checked")
+            if sk.shape[0] > maxcor:
+                out.violate("too_many_pairs", f"{name}: state #{j} holds {sk.shape[0]} pairs", kind="check_switch")
+                return
+            for i in range(sk.shape[0]):
+                out.count("check_switch_pairs_checked")
+                genuine = any(np.array_equal(xb - xa, sk[i]) and np.array_equal(gb - ga, yk[i]) for xa, ga in log for xb, gb in log)
+                if not genuine:
+                    out.violate("pair_not_a_difference_of_visited_points", f"{name}: pair {i} of state #{j} (s={sk[i]!r}, y={yk[i]!r}) is not the difference of two "
+                                f"evaluated points and of the gradients returned there", kind="check_switch")
+                    return
+                if not float(sk[i] @ yk[i]) > 0.0:
+                    out.violate("operator_not_positive_definite", f"{name}: pair {i} of state #{j} has s.y = {float(sk[i] @ yk[i])!r}", kind="check_switch")
+                    return
+    keys.add(f"check_switch/{spec['seed']}")
+
+
 def run(spec):
     out = Outcome()
     keys = set()
+    if spec["kind"] == "check_switch":
+        check_switch_case(spec, out, keys)
+        out.keys = keys
+        out.nontrivial = bool(keys)
+        out.sample = dict(spec=spec)
+        return out
     if spec["kind"] == "switch_on_restart":
         switch_on_restart_case(spec, out, keys)
     elif spec["kind"] == "switch":
